@@ -45,7 +45,20 @@ def main():
             if "--nopatch" in sys.argv or subprocess.run(["git", "-C", tree, "apply"] + extra + [patch], capture_output=True).returncode == 0:
                 break
         else:
-            raise SystemExit(f"patch does not apply: {patch}")
+            # last resort: a three-way merge against the blobs the patch names (needs the object store: a throw-away worktree)
+            ok3 = False
+            if not in_place and "--base" not in sys.argv:
+                wt = os.path.join(scratch, "wt")
+                if subprocess.run(["git", "-C", REPO, "worktree", "add", "-f", "--detach", wt, "HEAD"], capture_output=True).returncode == 0:
+                    try:
+                        if subprocess.run(["git", "-C", wt, "apply", "-3", patch], capture_output=True).returncode == 0:
+                            shutil.rmtree(os.path.join(tree, "loky"))
+                            shutil.copytree(os.path.join(wt, "loky"), os.path.join(tree, "loky"))
+                            ok3 = True
+                    finally:
+                        subprocess.run(["git", "-C", REPO, "worktree", "remove", "--force", wt], capture_output=True)
+            if not ok3:
+                raise SystemExit(f"patch does not apply: {patch}")
         ev = os.path.join(scratch, "evidence")
         os.makedirs(ev)
         env = dict(os.environ, LOKYSA_EVIDENCE_DIR=ev, LOKYSA_REPO=tree)
